@@ -131,6 +131,12 @@ def run_driver(prog, rep, rule="C01.D"):
             recv = canon(tr.operand(body.term(calls[0])["args"][0]))
             rep.check(re.search(r"Iterator::next\(&IntoIterator::into_iter\(&\*arg:self\.statements\)\) as Some\)\.0$", recv) is not None, rule,
                       "%s :: executes the loop item" % f.id, f.loc(), "the statement executed is the iteration's item", "the statement executed is not the iteration's item: %s" % recv[:160])
+        # ... for every match: no successful return without having entered the statement loop
+        from .e2_errflow import _failure_blocks as _fb
+        sb_ = success_blocks(body)
+        early_ = body.reach_from([0], avoid={h} | _fb(body)) & sb_ if sb_ else set()
+        rep.check(not early_, rule, "%s :: block runs for every match" % f.id, f.loc(), "every successful return has passed the statement loop",
+                  "%s can return successfully without running the stanza's block (a match is silently skipped)" % f.name)
         clears = [b for b, t in body.calls() if is_callee(t, r"VariableMap::<'a, V>::clear$") and "arg:locals" in canon(tr.operand(t["args"][0]))]
         rep.check(bool(clears) and all(body.dominates(c, h) for c in clears), rule, "%s :: locals cleared per match" % f.id, f.loc(),
                   "locals.clear() dominates the statement loop", "locals are not cleared before the block runs for a match")
